@@ -8,6 +8,7 @@ import (
 	"os"
 	"runtime"
 	"sort"
+	"strings"
 	"sync"
 	"testing"
 	"time"
@@ -111,7 +112,21 @@ func genCaseC12(t *rapid.T) *c12Case {
 	}
 	c := &c12Case{Base: base}
 	nReq := rapid.IntRange(4, 24).Draw(t, "nRequests")
+	// fields that no member of the Go type answers to: discovering that is a first-use path of its own
+	// (the binding attempt fails, every time, for every request that selects the field)
+	ghost := mode == "X" && rapid.IntRange(0, 2).Draw(t, "ghost") == 0
+	var ghostOn []string
+	if ghost {
+		base.ExtraSDL = "extend type Query { ghost: String ghosts(n: Int): [Int] }\n"
+		ghostOn = append(ghostOn, "Query")
+	}
 	for i := 0; i < nReq; i++ {
+		if ghost && rapid.IntRange(0, 3).Draw(t, fmt.Sprintf("r%dghost", i)) == 0 {
+			c.Requests = append(c.Requests, c12Request{Text: rapid.SampledFrom([]string{
+				"{ghost}", "{a: ghost b: ghost}", "{ghosts(n: 2)}", "{__typename ghost}", "{ghost ghosts}", "query G($n: Int = 3){ghosts(n: $n) __typename}",
+			}).Draw(t, fmt.Sprintf("r%dghostText", i))})
+			continue
+		}
 		if rapid.IntRange(0, 4).Draw(t, fmt.Sprintf("r%dintro", i)) == 0 {
 			c.Requests = append(c.Requests, c12Request{Text: genIntrospection(t, base.Schema, fmt.Sprintf("r%di", i))})
 			continue
@@ -155,16 +170,32 @@ func resolveOn(w *exec.World, r c12Request) (out string) {
 	return hx.Show(hx.Norm(res))
 }
 
+// c12Alone is the sequential baseline (run on a goroutine of its own so that a request that parks
+// itself for good is seen by awaitOrStuck instead of hanging the check).
+func c12Alone(c *c12Case, want []string, setupErr *error, done chan struct{}) {
+	defer close(done)
+	for i, r := range c.Requests {
+		w, err := exec.NewWorld(c.Base)
+		if err != nil {
+			*setupErr = err
+			return
+		}
+		want[i] = resolveOn(w, r)
+	}
+}
+
 func runC12(c *c12Case) (ds []hx.Discrepancy, info map[string]bool) {
 	info = map[string]bool{}
 	// sequential baseline: every request alone on its own fresh root
 	want := make([]string, len(c.Requests))
-	for i, r := range c.Requests {
-		w, err := exec.NewWorld(c.Base)
-		if err != nil {
-			return []hx.Discrepancy{{Kind: "setup", Detail: err.Error()}}, info
-		}
-		want[i] = resolveOn(w, r)
+	var setupErr error
+	alone := make(chan struct{})
+	go c12Alone(c, want, &setupErr, alone)
+	if stuck := awaitOrStuck(alone, "conc.c12Alone"); stuck != "" {
+		return []hx.Discrepancy{{Kind: "deadlock", Detail: "a request run alone on a fresh root: " + stuck}}, info
+	}
+	if setupErr != nil {
+		return []hx.Discrepancy{{Kind: "setup", Detail: setupErr.Error()}}, info
 	}
 	// one cold root, all goroutines released together
 	w, err := exec.NewWorld(c.Base)
@@ -178,8 +209,9 @@ func runC12(c *c12Case) (ds []hx.Discrepancy, info map[string]bool) {
 				runtime.Gosched()
 			}
 		}
-		defer func() { ggql.VerifYield = nil }()
 	}
+	// (reset below once every worker is done; with parked workers left behind the hook stays, they
+	// may still read it)
 	got := make([]string, len(c.Requests))
 	var wg sync.WaitGroup
 	start := make(chan struct{})
@@ -198,11 +230,10 @@ func runC12(c *c12Case) (ds []hx.Discrepancy, info map[string]bool) {
 	close(start)
 	done := make(chan struct{})
 	go func() { wg.Wait(); close(done) }()
-	select {
-	case <-done:
-	case <-time.After(90 * time.Second):
-		return []hx.Discrepancy{{Kind: "deadlock", Detail: fmt.Sprintf("%d goroutines with %d requests did not finish within 90s", c.Goroutines, len(c.Requests))}}, info
+	if stuck := awaitOrStuck(done, "conc.runC12.func"); stuck != "" {
+		return []hx.Discrepancy{{Kind: "deadlock", Detail: fmt.Sprintf("%d goroutines with %d requests: %s", c.Goroutines, len(c.Requests), stuck)}}, info
 	}
+	ggql.VerifYield = nil
 	busy := map[int]bool{}
 	for _, g := range c.Assignment {
 		busy[g] = true
@@ -225,12 +256,21 @@ func TestC12(t *testing.T) {
 	defer run.Flush()
 	crumb := os.Getenv("VERIF_OUT")
 	one := func(c *c12Case) {
+		crumbBytes, _ := json.Marshal(c)
 		if crumb != "" {
-			if b, err := json.Marshal(c); err == nil {
-				_ = os.WriteFile(crumb+".crumb", b, 0o644)
-			}
+			_ = os.WriteFile(crumb+".crumb", crumbBytes, 0o644)
 		}
 		ds, info := runC12(c)
+		for _, d := range ds {
+			if d.Kind == "deadlock" {
+				// the parked goroutines stay behind (and may have been writing to the case): nothing
+				// run after this in the same process, shrinking included, can be trusted, so the case
+				// is reported as drawn (the breadcrumb written above is its serialised form)
+				run.Case(1, true, "deadlock")
+				fmt.Printf("--- FAIL: C12 violated: %s\n", run.ReportFailure(json.RawMessage(crumbBytes), []hx.Discrepancy{d}))
+				os.Exit(1)
+			}
+		}
 		var cl []string
 		for k := range info {
 			cl = append(cl, k)
@@ -429,4 +469,63 @@ func c12InputRound(reqs []string, n int) (problems []string) {
 		}
 	}
 	return nil
+}
+
+// awaitOrStuck waits for done. The clock only decides when to look: a deadlock is reported from the
+// state of the goroutines - every worker still alive (a goroutine with the marker frame on its stack)
+// is parked in a synchronisation wait, twice in a row with the same set of goroutines, so none of
+// them can ever release what the others wait for. A worker that is merely slow (busy machine, race
+// detector) is running or runnable and is waited for.
+func awaitOrStuck(done <-chan struct{}, marker string) string {
+	var prev string
+	for {
+		select {
+		case <-done:
+			return ""
+		case <-time.After(3 * time.Second):
+		}
+		buf := make([]byte, 8<<20)
+		buf = buf[:runtime.Stack(buf, true)]
+		var ids, sample []string
+		allParked, n := true, 0
+		for _, g := range strings.Split(string(buf), "\n\n") {
+			if !strings.Contains(g, marker) {
+				continue
+			}
+			head := g
+			if i := strings.IndexByte(g, '\n'); i >= 0 {
+				head = g[:i]
+			}
+			i, j := strings.IndexByte(head, '['), strings.IndexByte(head, ']')
+			if i < 0 || j < i {
+				allParked = false
+				continue
+			}
+			state := head[i+1 : j]
+			if k := strings.IndexByte(state, ','); k >= 0 {
+				state = state[:k]
+			}
+			n++
+			if !(strings.HasPrefix(state, "sync.") || state == "semacquire") {
+				allParked = false
+			}
+			ids = append(ids, head[:i])
+			if len(sample) < 2 {
+				sample = append(sample, hx.Trunc(g, 1200))
+			}
+		}
+		cur := strings.Join(ids, "|")
+		if n > 0 && allParked && cur == prev {
+			select {
+			case <-done:
+				return ""
+			default:
+			}
+			return fmt.Sprintf("all %d unfinished workers are parked on a lock nobody can release:\n%s", n, strings.Join(sample, "\n\n"))
+		}
+		prev = ""
+		if n > 0 && allParked {
+			prev = cur
+		}
+	}
 }
